@@ -88,8 +88,10 @@ def run(chk):
         if rec["variant"].startswith("files-"):
             f = first[rec["input"]]
             rec["diag"] = rec["diag"] + "/" + (f["diag_ordered"] if rec["diag"] == f["diag"].split("/")[0] else "reordered-and-different")
+    recs += cli_history(chk, progs)
     trace = os.path.join(chk.wd, "history.ndjson")
     common.write_ndjson(trace, [{k: r[k] for k in ("input", "variant", "obj", "diag")} for r in recs])
+    chk.cov["cli_builds"] = sum(1 for r in recs if r["variant"].startswith("cli-"))
     res = common.run_tlc("Repro", "Repro.cfg", chk.wd, workers=1, timeout=1800, env={"TRACE": trace}, dfs=True,
                          out_name="repro.out")
     chk.require_tlc_ok("Repro.tla on the recorded history", res)
@@ -100,6 +102,14 @@ def run(chk):
         if k in seen:
             continue
         seen.add(k)
+        if k >= len(meta):
+            r = recs[k]
+            chk.violation({"kind": "cli-object", "variant": r["variant"]},
+                          {"program": r.get("name"), "variant": r["variant"], "first_outcome": b["first"],
+                           "this_outcome": {"obj": r["obj"], "diag": r["diag"]}, "files": r.get("files"),
+                           "how": "the repository's CLI (capy build FILE -o app --no-exec) in one working directory: "
+                                  "%s; sha256 of out/app.o" % r["variant"]})
+            continue
         n, iid, vname = meta[k]
         what = "object" if recs[k]["obj"] != b["first"]["obj"] else "diagnostics"
         chk.violation({"kind": what, "variant": vname},
@@ -116,6 +126,45 @@ def run(chk):
                        "token-mutated (mostly invalid) versions; each compiled 4-6 times: three fresh processes, "
                        "after an unrelated program in the same process, other files pre-registered in reverse / "
                        "forward order; a history of (input, object hash, diagnostics hash)")
+
+
+def cli_history(chk, progs):
+    """object files written by the CLI itself: the same program built into a clean out/ directory,
+    built twice in a row, and built after a LARGER and after a SMALLER program was built to the same
+    output name in the same working directory"""
+    import shutil
+    import subprocess
+    cli = os.path.join(common.HARNESS_DIR, "target", "debug", "capy-cli")
+    if not os.path.exists(cli):
+        raise common.ToolError("capy-cli was not built")
+    valid = [(n, f) for n, f in progs if not n.startswith("tok:") and len(f) == 1][:(4 if chk.tier == "quick" else 20)]
+    small = "main :: () -> i32 { 42 }\n"
+    big = open(os.path.join(common.REPO, "examples", "structs.capy")).read()
+    out = []
+
+    def build(wd, text, name="main.capy"):
+        with open(os.path.join(wd, name), "w") as f:
+            f.write(text)
+        r = subprocess.run([cli, "build", name, "--mod-dir", common.REPO, "--no-exec", "-o", "app", "--color", "never"],
+                           cwd=wd, capture_output=True, text=True, timeout=120, errors="replace")
+        p = os.path.join(wd, "out", "app.o")
+        if r.returncode != 0 or not os.path.exists(p):
+            return "no-object:rc=%d" % r.returncode
+        return hashlib.sha256(open(p, "rb").read()).hexdigest()
+    for k, (name, files) in enumerate(valid):
+        text = files["main.capy"]
+        iid = "cli:" + hashlib.sha256(text.encode()).hexdigest()[:16]
+        for variant, before in (("cli-clean", []), ("cli-twice", [text]), ("cli-after-larger", [big]),
+                                ("cli-after-smaller", [small])):
+            wd = os.path.join(chk.wd, "cli%d_%s" % (k, variant))
+            shutil.rmtree(wd, ignore_errors=True)
+            os.makedirs(wd)
+            for t in before:
+                build(wd, t, "prev.capy" if t is not text else "main.capy")
+            h = build(wd, text)
+            shutil.rmtree(wd, ignore_errors=True)
+            out.append({"input": iid, "variant": variant, "obj": h, "diag": "-", "name": name, "files": files})
+    return out
 
 
 def replay(path):
